@@ -2,12 +2,12 @@
 # tools/seeded_retest.sh <ID>: re-run the pinned tests that did not pass in seeded/<ID>/confirm.log (timing and port based
 # tests fail under load), three separate runs, on a worktree with the patch applied; a test counts as passing when it
 # passes in all three runs. pkg/webservice tests are run with their whole package (they share one server). Appends to confirm.log.
-ID=$1; V=/verif; W=/tmp/sr-$ID; L=$V/seeded/$ID/confirm.log
+ID=$1; V=/verif; W=/tmp/sr-$ID; L=${SEEDED_DIR:-$V/seeded}/$ID/confirm.log
 export GOFLAGS=-mod=mod GOPROXY=off; unset GOSUMDB
 grep "NOT PASSING" $L | sed 's/.*NOT PASSING: //; s/ [a-zA-Z]*$//' | sort -u > /tmp/sr-$ID.tests
 [ -s /tmp/sr-$ID.tests ] || exit 0
 git -C /repo worktree remove --force $W 2>/dev/null; git -C /repo worktree add --detach $W HEAD >/dev/null 2>&1 || exit 2
-git -C $W apply $V/seeded/$ID/patch.diff || exit 2
+git -C $W apply ${SEEDED_DIR:-$V/seeded}/$ID/patch.diff || exit 2
 sed -i '/^retest/,$d' $L
 echo "retest (3 separate runs; a test passes when it passes in all of them):" >> $L
 python3 - $W /tmp/sr-$ID.tests >> $L <<'PY'
